@@ -262,6 +262,29 @@ def check_values(rec, case):
                                  "got": float(got[i, j]), "want": float(wf[i, j]),
                                  "side": "below" if dd < 0 else "above" if dd > 0 else "equal"})
         return
+    # the mean over the samples, one value per tau (also for a single sample with several taus)
+    rec.ev()
+    rec.count("mean_quantile_score.value_calls")
+    try:
+        mq = np.asarray(scores.mean_quantile_score(yt, yo, tq))
+    except Exception as exc:
+        rec.violation("mean-quantile-score-exception", shrink_values(case, None),
+                      {"exception": repr(exc)[:300], "combo": combo})
+        return
+    wantm = want.sum(axis=0) / M.LD(n)
+    if mq.size != k:
+        rec.violation("mean-quantile-score-shape", shrink_values(case, None),
+                      {"got_shape": list(mq.shape), "n": n, "k": k})
+        return
+    badm = ~(np.abs(mq.reshape(-1).astype(M.LD) - wantm) <= (n + 4) * EPS * np.abs(wantm))
+    if badm.any():
+        j = int(np.argmax(badm))
+        rec.violation("mean-quantile-score-value", shrink_values(case, None),
+                      {"tau": float(taus[j]), "got": float(mq.reshape(-1)[j]), "want": float(wantm[j]),
+                       "n": n, "k": k})
+        return
+    if n == 1 and k > 1:
+        rec.count("mean_quantile_score.single_sample_many_taus")
     if nb and na:
         rec.nontriv(["value", case.get("kind"), bucket(n), k, list(combo)],
                     sha(y_tau, y_test, taus))
@@ -359,6 +382,8 @@ def check_minimiser(rec, case):
             try:
                 res = scores.mean_quantile_score(y_tau, y, tt if len(cc) > 1 or case.get(
                     "vec", True) else tau)
+                if np.size(res) != len(cc):
+                    raise ValueError("result has %d values for %d taus" % (np.size(res), len(cc)))
                 losses[b:b + len(cc)] = np.asarray(res).reshape(-1)
             except Exception as exc:
                 rec.violation("mean-quantile-score-exception", shrink_min(case, tau),
